@@ -215,6 +215,17 @@ theorem good_setValue (n : Bytes) (v : Val) : Good (setValue n v) := by
       · exact post_crash_same _ _
       · exact post_ok_setFrame _ _ _ _
 
+theorem good_letGlobal (n : Bytes) (v : Val) : Good (letGlobal n v) := by
+  refine ⟨fun rt _ => ?_⟩
+  unfold letGlobal
+  split
+  · exact post_crash_same _ _
+  · split
+    · exact post_crash_same _ _
+    · split
+      · exact post_crash_same _ _
+      · exact post_ok_setFrame _ _ _ _
+
 theorem good_getBlock (n : Bytes) : Good (getBlock n) := by
   refine ⟨fun rt _ => ?_⟩; exact ⟨Ext.refl rt, Rest.refl rt⟩
 
